@@ -416,6 +416,44 @@ theorem C04_recover_invisible_counterexample :
   revert this
   decide
 
+namespace Tiny2
+
+/-- a second tiny world, zip limit 26: the file schema blob `rF` (2 bytes) lets both chunks into one zip,
+the schema blob `rG` of the same file under another name (3 bytes) only the first one -/
+def rG : Ref := [5]
+def C : Ref → Bytes := fun r => if r = Tiny.rA then [10, 11] else if r = Tiny.rB then [20] else if r = rG then [30, 31, 32] else [30, 31]
+def cfg : Cfg := ⟨26, 2, 10, 5, 1, false⟩
+def K : Ref → Kind := fun r =>
+  if r = Tiny.rF ∨ r = rG then .file true [⟨.blob, Tiny.rA, 0, 2⟩, ⟨.blob, Tiny.rB, 0, 1⟩] else .raw
+def H : Bytes → Ref := fun _ => [7]
+def t1 : St := (receive ⟨cfg, K, H⟩ St.empty Budget.unlimited Tiny.rA (C Tiny.rA) [] 10).s
+def t2 : St := (receive ⟨cfg, K, H⟩ t1 Budget.unlimited Tiny.rB (C Tiny.rB) [] 10).s
+/-- the first pack is cut after the meta batch of its only zip (which holds both chunks) -/
+def t3 : St := (receive ⟨cfg, K, H⟩ t2 ⟨some 3, 0, false⟩ Tiny.rF (C Tiny.rF) [⟨[8], 20, 5, [10]⟩] 10).s
+/-- the same bytes under the other name: two zips, the first with one chunk -/
+def t4 : St := (receive ⟨cfg, K, H⟩ t3 Budget.unlimited rG (C rG) [⟨[18], 20, 5, [10]⟩, ⟨[19], 20, 5, [10]⟩] 10).s
+
+theorem reach4 : Reachable C cfg t4 :=
+  .recv _ K H _ rG _ 10 (.recv _ K H _ Tiny.rF _ 10 (.recv _ K H _ Tiny.rB [] 10 (.recv _ K H _ Tiny.rA [] 10 .empty)))
+
+end Tiny2
+
+/-- **recovery can fail** (`hasDups` panics): the full statement "after any history of packs, cut
+anywhere, recovery from the zips succeeds" is false.  Witness: a pack cut after its first zip, the same
+bytes packed under another name with a different split; `large` then holds two zips with the same
+whole ref and part index but different data sizes (3 zips in all), and both recovery modes panic.
+The recovery theorems above therefore carry the explicit guard `reindex full s = (s', .ok)`. -/
+theorem C04_recover_succeeds_counterexample :
+    ¬ (∀ (C : Ref → Bytes) (c : Cfg) (s : St) (full : Bool), c.legacy = false → Reachable C c s →
+        (reindex full s).2 = .ok) := by
+  intro hall
+  have h1 := hall Tiny2.C Tiny2.cfg Tiny2.t4 false rfl Tiny2.reach4
+  revert h1
+  decide
+
+example : Tiny2.t4.large.length = 3 ∧ (reindex false Tiny2.t4).2 = .panic ∧ (reindex true Tiny2.t4).2 = .panic ∧
+    openWholeRef Tiny2.t4 [7] 0 = .ok 3 [10, 11, 20] := by decide
+
 /-- the code before the `fix:` commit (`legacy = true`): removing a blob that is packed and still loose
 (a pack cut after its meta batch) left it fetchable -/
 theorem C04_remove_legacy_counterexample :
